@@ -166,3 +166,33 @@ void harness (void)
   if (G_PADLEN - G_LEN > 128) XV_CANARY ("final with two padding blocks");
 }
 #endif
+
+#ifdef U_final_wipe
+/* SHA512_Final over SHA512_Pad by contract (a recording stub): one padding
+   call on the caller's context, the digest taken from the chaining value
+   after it, and the whole context erased - cheap enough for the quick tier */
+static int pad_calls; static SHA512_CTX *pad_ctx; static uint64_t pad_state[8];
+void pad_stub (SHA512_CTX *ctx)
+{
+  pad_calls++; pad_ctx = ctx;
+  for (int k = 0; k < 8; k++) { ctx->state[k] = nondet_u64 (); pad_state[k] = ctx->state[k]; }   /* XV_UNWIND 8 */
+}
+void harness (void)
+{
+  SHA512_CTX *ctx = malloc (sizeof (SHA512_CTX));
+  unsigned char *out = malloc (64);
+  XV_ASSUME (ctx != NULL && out != NULL);
+  pad_calls = 0; xv_bzero_n = 0; xv_event_seq = 1;
+  SHA512_Final (out, ctx);
+  XV_IN (size_t, w, nondet_size);
+  XV_ASSUME (w < 8);
+  uint64_t s = pad_state[w];
+  XV_ASSERT ("C16", pad_calls == 1 && pad_ctx == ctx && out[8 * w] == (unsigned char) (s >> 56) && out[8 * w + 1] == (unsigned char) (s >> 48)
+             && out[8 * w + 2] == (unsigned char) (s >> 40) && out[8 * w + 3] == (unsigned char) (s >> 32)
+             && out[8 * w + 4] == (unsigned char) (s >> 24) && out[8 * w + 5] == (unsigned char) (s >> 16)
+             && out[8 * w + 6] == (unsigned char) (s >> 8) && out[8 * w + 7] == (unsigned char) s,
+             "Final pads once and emits the chaining value big-endian (arbitrary word)");
+  XV_ASSERT ("C09", xv_bzero_n == 1 && xv_bzeroed_after (ctx, sizeof (SHA512_CTX), 0), "Final erases the whole context: state, bit count and block buffer");
+  XV_CANARY ("final_wipe");
+}
+#endif
